@@ -44,6 +44,17 @@ func (m *Module) classIdentifierProcessing(
 	ctx.StartDefineStatic()
 	defer ctx.EndDefineStatic()
 
+	// the singleton body has its own visibility section: it starts public and
+	// leaves the enclosing section as it found it
+	outerIsPrivate, outerIsProtected := ctx.IsPrivate, ctx.IsProtected
+	ctx.EndPrivate()
+	ctx.EndProtected()
+
+	defer func() {
+		ctx.IsPrivate = outerIsPrivate
+		ctx.IsProtected = outerIsProtected
+	}()
+
 	for {
 		nextT, err := p.Read()
 		if err != nil {
